@@ -847,6 +847,49 @@ def namesake_plumbing(ctx, prog, path_regex, min_sites, label):
                     ctx.ok("%s@%s:%s.%s" % (label, short(bd.path), tname, fname), "listed exception: " + NAMESAKE_EXC[(tname, fname)], bd.where(b.idx))
                     continue
                 ctx.check(fname in m, "%s@%s:%s.%s" % (label, short(bd.path), tname, fname), "%s <- %s" % (fname, expr_str(fe)[:60]), bd.where(b.idx), bad_detail="field `%s` of %s is filled from `%s` (%s), not from its namesake" % (fname, tname, ",".join(sorted(m)), expr_str(fe)[:80]))
+    # near-namesakes: a field filled directly from `input.f` although a sibling field `input.g` matches its name better
+    # (sol_tx_buffer_size <- unsolicited_buffer_size where solicited_buffer_size exists)
+    def toks(x):
+        return [t for t in x.split("_") if t]
+
+    def score(a, b_):
+        ta, tb = toks(a), toks(b_)
+        k = sum(1 for x in ta if any(x == y or (len(x) >= 3 and y.startswith(x)) or (len(y) >= 3 and x.startswith(y)) for y in tb))
+        return k
+
+    def struct_fields(ty):
+        ty = re.sub(r"<.*>$", "", ty.lstrip("&").replace("mut ", "").strip())
+        c = [a for p_, a in prog.adts.items() if p_ == ty or p_.endswith("::" + ty.split("::")[-1])]
+        if len(c) == 1 and c[0]["kind"] == "struct":
+            return [f[0] for f in c[0]["variants"][0]["fields"]]
+        return None
+
+    m = 0
+    for bd in prog.bodies.values():
+        if not r.search(bd.path) or "::test" in bd.path:
+            continue
+        sym = None
+        for b, si, st in bd.assigns():
+            rv = st.rv
+            if rv["k"] != "agg" or rv.get("ak") != "struct" or len(rv["fields"]) < 2:
+                continue
+            sym = sym or ctx.sym(bd)
+            e = sym.rvalue_expr(rv)
+            tname = rv["adt"].split("::")[-1]
+            for fname, fe in e[3]:
+                x = strip_passthrough(fe)
+                if not (x[0] == "field" and x[1][0] in ("param", "var", "capture")):
+                    continue
+                locs = bd.local_by_name(x[1][1])
+                if not locs:
+                    continue
+                fields = struct_fields(bd.local_tys[locs[0]])
+                if not fields or x[2] not in fields:
+                    continue
+                m += 1
+                s0 = score(fname, x[2])
+                best = max(((score(fname, f), f) for f in fields if f != x[2]), default=(0, None))
+                ctx.check(not (best[0] >= 2 and best[0] > s0), "%s-near@%s:%s.%s" % (label, short(bd.path), tname, fname), "%s <- %s.%s" % (fname, x[1][1], x[2]), bd.where(b.idx), bad_detail="field `%s` of %s is filled from `%s.%s` although `%s.%s` is its namesake" % (fname, tname, x[1][1], x[2], x[1][1], best[1]))
     if n < min_sites:
         raise AnchorError("%s: %d namesake field initialisations (expected >= %d)" % (label, n, min_sites))
     return n
